@@ -34,7 +34,11 @@ def fault_part(chk):
             t.meta["r2"] = t.add("recover"); t.meta["h2"] = t.add("hdrs")
             t.meta["ref_hdrs"] = out[s.meta["rec"] + 1][0]
             cases.append(t)
-    clines, cimpl, couts = session.run(chk, cases, stream="recover-fault")
+    # fault positions are device-operation indices: when the reference runs showed read-pattern drift the faulted runs are judged
+    # by the oracle alone (same policy as C18)
+    if chk.drift:
+        chk.notes.append("recover-fault: read pattern drifted from the model's; the faulted runs are not compared with the model (oracle only)")
+    clines, cimpl, couts = session.run(chk, cases, stream="recover-fault", with_model=not chk.drift)
     nt = []
     for t, l, raw, out in zip(cases, clines, cimpl, couts):
         if len(out) != len(t.ops):
